@@ -1474,6 +1474,37 @@ func (g *Gen) scenarios() []intent {
 			return append(out, g.loginStep(g.browser(), u, Desc{K: "pw", U: u}, false))
 		})
 	}
+	if c.has("auth") && c.Totp && c.OneTime {
+		// replay protection on: the code that just logged the session in does not switch the factor off either (it is
+		// not a CURRENT code any more), neither at once nor - the stored last code - later
+		add(boost(3, "twofactor", "onetime"), func() []SymStep {
+			var u string
+			for _, n := range g.names {
+				if a, ok := g.r.acc[n]; ok {
+					if usr, ok := g.r.w.st.users[a.PID]; ok && usr.TOTPSecretKey != "" && !(c.Sms && c.SmsFirst && usr.SMSPhoneNumber != "") {
+						u = n
+					}
+				}
+			}
+			if u == "" {
+				return nil
+			}
+			b := g.browser()
+			var out []SymStep
+			if c.has("lock") {
+				out = append(out, SymStep{Kind: "unlock", U: u})
+			}
+			code := Desc{K: "totp", U: u}
+			out = append(out, SymStep{Kind: "dropsess", U: b}, g.loginStep(b, u, Desc{K: "pw", U: u}, false),
+				g.req(b, "POST", "TotpValidate", []KV{{"code", code}}))
+			rcode := code
+			if g.rng.Intn(2) == 0 {
+				out = append(out, SymStep{Kind: "tick", D: int64(40 + g.rng.Intn(400))})
+				rcode = Desc{K: "stored", U: u, V: "totp_last"}
+			}
+			return append(out, g.req(b, "POST", "TotpRemove", []KV{{"code", rcode}}))
+		})
+	}
 	if c.has("auth") && c.Totp {
 		// the code that just completed a login is presented again at once from another browser, as it is
 		// and as a person might paste it (surrounding white space)
@@ -1489,7 +1520,10 @@ func (g *Gen) scenarios() []intent {
 			if u == "" {
 				return nil
 			}
-			b1, b2 := g.browser(), g.browser()
+			b1, b2 := "b1", "b2"
+			if g.rng.Intn(2) == 0 {
+				b1, b2 = "b3", "b1"
+			}
 			code := Desc{K: "totp", U: u}
 			again := code
 			switch g.rng.Intn(5) {
@@ -1504,8 +1538,24 @@ func (g *Gen) scenarios() []intent {
 			if g.rng.Intn(4) == 0 {
 				first = Desc{K: "mut", D: &code, Op: "inner", N: 3}
 			}
-			out := []SymStep{g.loginStep(b1, u, Desc{K: "pw", U: u}, false), g.req(b1, "POST", "TotpValidate", []KV{{"code", first}}),
-				g.loginStep(b2, u, Desc{K: "pw", U: u}, false)}
+			var pre []SymStep
+			if c.has("lock") {
+				pre = append(pre, SymStep{Kind: "unlock", U: u}) // whatever the history did to the account before
+			}
+			pre = append(pre, SymStep{Kind: "dropsess", U: b1}, SymStep{Kind: "dropsess", U: b2})
+			if g.rng.Intn(3) == 0 {
+				// the code that just logged the session in does not switch the factor off either (it is not a CURRENT code
+				// any more), neither at once nor - the stored last code - much later
+				rcode := code
+				t := append(pre, g.loginStep(b1, u, Desc{K: "pw", U: u}, false), g.req(b1, "POST", "TotpValidate", []KV{{"code", code}}))
+				if g.rng.Intn(2) == 0 {
+					t = append(t, SymStep{Kind: "tick", D: int64(40 + g.rng.Intn(400))})
+					rcode = Desc{K: "stored", U: u, V: "totp_last"}
+				}
+				return append(t, g.req(b1, "POST", "TotpRemove", []KV{{"code", rcode}}))
+			}
+			out := append(pre, g.loginStep(b1, u, Desc{K: "pw", U: u}, false), g.req(b1, "POST", "TotpValidate", []KV{{"code", first}}),
+				g.loginStep(b2, u, Desc{K: "pw", U: u}, false))
 			if g.rng.Intn(2) == 0 { // a wrong guess in between does not make the spent code fresh again
 				out = append(out, g.req(b2, "POST", "TotpValidate", []KV{{"code", lit(pickS(g.rng, "000000", "12345", "Passw0rd!x"))}}))
 			}
